@@ -1,7 +1,7 @@
 SPECIFICATION Spec
 CONSTANTS
-  TlsOn = TRUE
-  AuthOn = TRUE
+  TlsOn = FALSE
+  AuthOn = FALSE
   KF_FlagsSurviveTls = FALSE
   KF_BufferSurvivesTls = FALSE
   KF_BareArg421 = FALSE
